@@ -233,6 +233,20 @@ CHECKS = {
               "for many (n, dt) pairs over the middle half."),
         design_ref="DESIGN.md section 4, C15",
         note=LEVEL_NOTE_N),
+    "C17": dict(
+        engine="Filter",
+        technique="TLA+ closed-form squared Butterworth magnitude (bilinear map with pre-warping) and definitional detrend / running-average clauses over the FP carrier; TLC exhaustive over all short integer series with the implementation in lock-step; TLC trace validation of filtered sinusoids, linearity, detrending, adding and averaging",
+        category="model_checking",
+        text=("MC_Filter: gain formula in [0,1], 1/2 at every cut-off, monotone in the transition bands for orders 1..4; every series over "
+              "{-2..2} of length 3..5 (quick) / 3..6 (float, int, list): running_average for widths 1..7 = mean of the ORIGINAL samples within "
+              "floor(w/2) positions; remove_poly degrees 0..2 (object, applied twice, after adding a polynomial, array level): subtracts a "
+              "polynomial of degree <= k (vanishing (k+1)-th differences), residual orthogonal to 1..t^k, idempotent, polynomial-invariant. "
+              "Trace_Filter: butter_pass (band / low / high, orders 1-4, remove_gibbs None/start/end/mid, list / tuple / ndarray cut-offs, "
+              "Signal and AccSignal) on sinusoids across pass, transition and stop bands with random phase: length and dt preserved, middle "
+              "half = |H(f)|^2 x input with |H|^2 recomputed by TLC; linearity; remove_poly degrees 0..4; add_constant / add_series / "
+              "add_signal element-wise incl. the cases that must raise; running_average widths 1..25 on float and integer records."),
+        design_ref="DESIGN.md section 4, C17",
+        note=LEVEL_NOTE_N + "; gain clause asserted on well-conditioned designs only (f_low*dt >= 0.016, record >= 40 longest periods)"),
 }
 
 NOT_YET = {}
